@@ -63,3 +63,28 @@ if os.environ.get("NGS_VERIF_MONITORS") == "1" and os.environ.get("NGS_VERIF_CHI
         atexit.register(_report)
     except Exception as _exc:   # never break the command under test because of the monitor
         sys.stderr.write(f"ngs-verif child monitor not attached: {_exc!r}\n")
+
+if os.environ.get("NGS_VERIF_MONITORS") == "1" and os.environ.get("NGS_VERIF_REACH_ALL"):
+    # function-reach audit of the command processes (tools/reach_report.py only)
+    try:
+        _verif = os.path.dirname(os.path.dirname(os.path.dirname(os.path.dirname(
+            os.path.abspath(__file__)))))
+        if _verif not in sys.path:
+            sys.path.append(_verif)
+        import atexit as _atexit
+        import json as _json
+
+        from harness.monitors import reach as _reach_mod
+        _reach = _reach_mod.Reach()
+        _reach.start()
+
+        def _dump_reach():
+            try:
+                with open(os.path.join(os.environ["NGS_VERIF_REACH_ALL"],
+                                       f"child-{os.getpid()}.json"), "w") as f:
+                    _json.dump(dict(_reach._counts), f)
+            except Exception:
+                pass
+        _atexit.register(_dump_reach)
+    except Exception as _exc:
+        sys.stderr.write(f"ngs-verif reach audit not attached: {_exc!r}\n")
